@@ -6,8 +6,8 @@ from formats import KITS, points_bytes, np_dtype, rand_scalars, logical_shape, D
 from oracles import label_dict, dict_close
 
 
-def make_case(kit, rng):
-    c = kit.draw(rng)
+def make_case(kit, rng, cfg=None):
+    c = kit.draw(rng) if cfg is None else cfg
     L = kit.layout(c)
     kind, width, big, cplx = kit.sample(c)
     shape = logical_shape(L)
